@@ -283,6 +283,7 @@ class DeadLetterSweep(DLBound, Transition):
 
 class Prune(Transition):
     kind = 'prune'
+    exists = None      # every row slot may or may not exist
     sizes = {'Topic': 2, 'Subscription': 2, 'Message': 2, 'Delivery': 3}
 
     def __init__(self, job, ctor, typ):
